@@ -301,6 +301,70 @@ def r69(ctx, fx):
                         "on the stack and every later import of it is reported as cyclic", "%s:%s" % (et.file, exits[0].get("ln")))
 
 
+def r611(ctx, fx):
+    rid = ctx.rule("R6.11", "recursion that follows macro invocations is bounded: the MacroInvocation arm of emit_token compares a depth counter of the context with a "
+                   "constant (≤ 256) and returns an error beyond it, before it expands the body; the counter is incremented before and decremented after the "
+                   "expansion with no `?`/`return` in between")
+    et = fx.fn("mos_core::codegen::CodegenContext::emit_token")
+    if et is None:
+        ctx.fail_closed(rid, "emit_token not found")
+        return
+    arm = None
+    for n in lib.hwalk(et.hir["body"]):
+        if n.get("k") == "match":
+            for a in n["arms"]:
+                pk = lib.pat_key(a["pat"])
+                if isinstance(pk, str) and pk.split("(")[0] == "mos_core::parser::ast::Token::MacroInvocation":
+                    arm = a
+            if arm:
+                break
+    key = "emit_token|MacroInvocation|depth-guard"
+    ctx.inst(rid, key)
+    if arm is None:
+        ctx.fail_closed(rid, "Token::MacroInvocation arm not found")
+        return
+    guard = None
+    for n in lib.hwalk(arm["body"]):
+        if n.get("k") == "if":
+            d = repr(lib.hdesc(n["cond"]))
+            if "macro_depth" in d and any(r.get("k") == "ret" and lib.pm(lib.hcallee(lib.strip(r.get("a", {}))), "Result::Err") for r in lib.hwalk(n["then"])):
+                guard = n
+    scopes = [x for x in lib.hwalk(arm["body"]) if x.get("k") in ("mcall", "call") and lib.pm(lib.hcallee(x), "CodegenContext::with_scope")]
+    if guard is None:
+        ctx.finding(rid, key, "a macro invocation is expanded without a bound on the nesting depth: a macro that (directly or through others) invokes itself recurses "
+                    "until the stack overflows", "%s:%s" % (et.file, arm.get("ln")))
+        return
+    if not scopes or any((x.get("ln") or 0) < (guard.get("ln") or 0) for x in scopes):
+        ctx.finding(rid, key, "the macro body is expanded before the depth check", "%s:%s" % (et.file, arm.get("ln")))
+    key2 = "emit_token|MacroInvocation|depth-balanced"
+    ctx.inst(rid, key2)
+    incs = [x for x in lib.hwalk(arm["body"]) if x.get("k") == "assignop" and lib.hdesc(x["l"])[:2] == ("f", "macro_depth")]
+    ops = sorted((x.get("ln") or 0, x.get("op")) for x in incs)
+    sc_ln = min((x.get("ln") or 0) for x in scopes) if scopes else 0
+    names = [o for _, o in ops]
+    if names != ["AddAssign", "SubAssign"] or not (ops[0][0] <= sc_ln <= ops[1][0]):
+        ctx.finding(rid, key2, "the macro depth counter is not incremented before and decremented after the expansion (%s)" % names, "%s:%s" % (et.file, arm.get("ln")))
+        return
+    # no exit between the increment and the decrement outside the closure
+    def outside_closures(n):
+        stack = [n]
+        while stack:
+            x = stack.pop()
+            if isinstance(x, dict):
+                if x.get("k") == "closure":
+                    continue
+                yield x
+                stack.extend(v for v in x.values() if isinstance(v, (dict, list)))
+            elif isinstance(x, list):
+                stack.extend(v for v in x if isinstance(v, (dict, list)))
+    exits = [x for x in outside_closures(arm["body"])
+             if ((x.get("k") == "match" and str(x.get("src", "")).startswith("TryDesugar")) or x.get("k") == "ret") and x.get("ln") is not None and
+             (ops[0][0] < x["ln"] < ops[1][0] or (x.get("k") == "match" and x["ln"] == sc_ln))]
+    if exits:
+        ctx.finding(rid, key2 + "|early-return", "an error inside a macro body leaves the function before the depth counter is decremented: every later invocation "
+                    "starts one level deeper", "%s:%s" % (et.file, exits[0].get("ln")))
+
+
 def r63(ctx, fx):
     rid = ctx.rule("R6.3", "no unwrap/expect on the result of from_str_radix / str::parse applied to text captured by the parser")
     n = 0
@@ -530,6 +594,7 @@ def run(ctx):
     r62(ctx, fx, T, scope)
     r68(ctx, fx, scope)
     r69(ctx, fx)
+    r611(ctx, fx)
     r610(ctx, fx, scope)
     r63(ctx, fx)
     r64(ctx, fx)
